@@ -686,6 +686,11 @@ func exec(t []string) string {
 		// does this rollback replace Candidate objects by copies (undo of the "new voting period /
 		// new committee" step restores a copied map)?  Closures recorded at lower heights keep
 		// pointing at the old objects.  Sticky until the world is re-synchronised.
+		// a rollback across a committee change or a (re)start of a voting period restores COPIES of the
+		// candidate objects (committee.go:1749-1776); sticky until the world is re-synchronised
+		if w.cm.LastCommitteeHeight > k || w.cm.LastVotingStartHeight > k {
+			w.replaced = true
+		}
 		err := w.cm.RollbackTo(k)
 		if w.noteCandidates() {
 			w.replaced = true // the rollback created Candidate objects no block ever created
